@@ -261,6 +261,9 @@ def _worker(args):
         case = {k: v for k, v in scn.items() if not k.startswith("_")}
         try:
             recs = LL.run(scn)
+        except S.SolverBudget:
+            cnt("abandoned_solver_budget")
+            continue
         except Exception as e:
             import traceback
             res["orc"].append({"signature": "construction-exception:" + type(e).__name__, "case": case,
